@@ -561,6 +561,8 @@ struct World {
       VH_CHECK(ctx, kv.second->key == kv.first && kv.second->val == hval[kv.second] && kv.second->_hash_code == hash_of(kv.first), "hash-node-clobbered", "hash[%d] after %s: node key %u content changed", t, where, kv.first);
     }
     if (longest >= 4) cls("hash.chain_ge4");
+    // a hash table keeps its load factor bounded (the bucket array grows on insertion); 0.9 is the implementation's limit, 2.0 + 8 is asserted
+    VH_CHECK(ctx, m.size() <= size_t(h._buckets_count) * 2 + 8, "hash-load-factor", "hash[%d] after %s: %zu nodes in %u buckets, the bucket array does not grow", t, where, m.size(), h._buckets_count);
   }
   void hash_get_check(int t, uint32_t key) {
     HNode* n = hash[t].get(HKey{hash_of(key), key});
